@@ -25,6 +25,7 @@ import MW.Lemmas.LedgerD2Ex
 import MW.Lemmas.LedgerFUEx
 import MW.Lemmas.TxmgrCodecRec
 import MW.Lemmas.LedBytesInv
+import MW.Lemmas.LedBytesWorld
 namespace MW.Props.C01
 open MW MW.Model.Ledger MW.Spec.Chain MW.Spec.Books MW.Lemmas.Ledger
 
@@ -498,8 +499,20 @@ theorem codec_laws (N : Names) (loc : Model.TxmgrCodec.TxLocB → BlkId × Nat) 
   ⟨cdC_laws N, cdU_laws N, cdD_laws N, cdBal_laws N, cdT_laws N loc, cdSync_laws N, cdWS_laws N, cdA_laws N, cdG_laws N,
    cdM_laws N deser, cdMI_laws N, cdMC_laws N, cdUG_laws N⟩
 
-/-- still open: the laws of the block-record codec `b` (value built by the append loop of updateBlockRecord) -/
-def codec_laws_blocks_full : Prop := ∀ N : Names, (cdB N).Laws
+/-- (Round 6) THE LAWS OF THE BLOCK-RECORD CODEC `b` — the 14th bucket.  Its value is never written in one piece:
+    `valueBlockRecord` writes the 76-byte record of the first transaction, `appendRawBlockRecord` appends a hash and
+    patches the 4-byte counter; `block_record_value` is the closed form the loop builds -/
+theorem codec_laws_blocks_full : ∀ N : Names, (cdB N).Laws := cdB_laws
+
+/-- updateBlockRecord's loop (`blockRecordValue`) builds hash ‖ time ‖ count ‖ hashes (`brFlat`); one more
+    `appendRawBlockRecord` appends one hash and increments the counter; `readRawBlockRecord` reads everything back -/
+theorem block_record_value (h : Bytes) (t : Nat) (txs : List Bytes) (x : Bytes) (hh : h.length = 32) (ht : t < 256 ^ 8)
+    (hne : txs ≠ []) (hn : txs.length < 256 ^ 4) (hx : ∀ y ∈ txs, y.length = 32) (hx' : x.length = 32) :
+    Model.TxmgrCodec.blockRecordValue h t txs = some (brFlat h t txs) ∧
+    Model.TxmgrCodec.appendRawBlockRecord (brFlat h t txs) x = some (brFlat h t (txs ++ [x])) ∧
+    Model.TxmgrCodec.readRawBlockRecordValue (brFlat h t txs) = some ⟨h, t, txs⟩ :=
+  ⟨blockRecordValue_eq h t txs hh ht hne (Nat.le_of_lt hn) hx, appendRawBlockRecord_brFlat h t txs x hh hn hx',
+   readRawBlockRecordValue_brFlat h t txs hh ht hn hx⟩
 
 /-- the typed round trip of the credit VALUE (left open in Round 4): `readCreditValue` reads every well-formed credit
     back from the 45 bytes `valueUnspentCredit` writes — and from any extension of them (the 121-byte spent form) -/
@@ -514,6 +527,24 @@ theorem spend_credit_value (c : Model.TxmgrCodec.CreditValB) (h : c.WF) (hs : c.
     (dk : Model.TxmgrCodec.CredKeyB) (hd : dk.WFd = true) :
     Model.TxmgrCodec.spendCreditValue (enc45 c) dk = .ok (enc45 { c with spent := true } ++ Model.TxmgrCodec.keyDebit dk) :=
   spendCreditValue_enc45 c h hs dk hd
+
+/-- (Round 6) THE INVERSE: unspendRawCredit's rewrite (first 45 bytes, spent bit cleared) of any value that starts with
+    the 45 bytes of a well-formed credit — in particular of the 121-byte spent form `spend_credit_value` produces — is the
+    45-byte unspent form of the same credit; `valueUnminedCreditFromMined` keeps the 45 bytes (flags included) -/
+theorem unspend_credit_value (c : Model.TxmgrCodec.CreditValB) (h : c.WF) (ext : Bytes) :
+    Model.TxmgrCodec.unspendCreditValue (enc45 c ++ ext) = enc45 { c with spent := false } ∧
+    Model.TxmgrCodec.valueUnminedCreditFromMined (enc45 c ++ ext) = some (enc45 c) :=
+  ⟨unspendCreditValue_enc45 c h ext, unminedFromMined_enc45 c h ext⟩
+
+/-- (Round 6) existsRawUnspent's recomposition: outpoint hash (key bytes 42..74) ‖ the 40-byte value ‖ index (key bytes
+    74..78) IS `keyCredit` of that outpoint in the block the unspent value names; and back: bytes 32..72 of a credit key
+    are `valueUnspent` of its block (fetchNsUnspentValueFromRawCredit, used by Rollback) -/
+theorem unspent_credit_key (w h : Bytes) (i : Nat) (b : Model.TxmgrCodec.BlockMetaB) (hw : w.length = 42) (hh : h.length = 32)
+    (hi : i < 256 ^ 4) (hb : b.WF = true) (hk : (⟨h, b, i⟩ : Model.TxmgrCodec.CredKeyB).WF = true) :
+    Model.TxmgrCodec.credKeyOfUnspent (Model.TxmgrCodec.canonicalUnspentKey ⟨w, h, i⟩) (Model.TxmgrCodec.valueUnspent b)
+      = some (Model.TxmgrCodec.keyCredit ⟨h, b, i⟩) ∧
+    Model.TxmgrCodec.fetchNsUnspentValueFromRawCredit (Model.TxmgrCodec.keyCredit ⟨h, b, i⟩) = some (Model.TxmgrCodec.valueUnspent b) :=
+  ⟨credKeyOfUnspent_enc w h i b hw hh hi hb, unspentValue_of_keyCredit ⟨h, b, i⟩ hk⟩
 
 /-- the one height whose 8-byte key is the name "syncedto" of the cursor in the same bucket (≈ 8.3·10^18): the
     hypothesis `keySynced h ≠ syncedToKey` of the sync-bucket lemmas is necessary -/
@@ -547,11 +578,51 @@ theorem sync_on_bytes (E : MW.LedBytes.Env) {sync : AMap.T Bytes Bytes} (hc : Ca
   ⟨fun _ _ hl ht => ⟨(sync_put_height E hc hh hne hl ht).1, (sync_put_height E hc hh hne hl ht).2.1⟩,
    sync_get_height E hc hh hne, (sync_erase_height E hc hh hne).1, (sync_put_cursor sync hh).2⟩
 
-/-- what remains of `ledger_on_bytes`: the same statement for the whole of AddRelevantTx (mined) and of Rollback's
-    inner loop — it needs byte-level versions of insertMinedTx (updateMinedBalance: spendCredit's value rewrite,
-    putDebit, withdrawGame; putTxRecord; the block-record append; removeDoubleSpends on the pending buckets) and of
-    rollbackTx, each simulated like `addCreditsB`; the commuting lemmas (`bucket_access_commutes`) and the codec laws
-    they need are proved, the block-record codec (`codec_laws_blocks_full`) and the byte steps themselves are not -/
+/-- (Round 6) `ledger_on_bytes` — THE WHOLE OF AddRelevantTx FOR A MINED TRANSACTION ON BYTES: existsTxRecord; the block
+    record (putBlockRecord / appendRawBlockRecord); putTxRecord; updateMinedBalance (existsUnspent with the recomposed
+    credit key, spendCredit's 45 → 121 byte rewrite, readRawCreditKey + withdrawGame, putDebit, deleteRawUnspent, the working
+    balance); the removal of the tx's own pending version (deleteUnminedCredits, deleteRawUnmined); removeDoubleSpends with
+    the recursive removeConflict on `m` / `mi` / `mc` / `LG`; AddCredits.  Running the byte-level function and
+    abstracting = abstracting and running `Model.Ledger.addRelevantMined`, every error exit included; the result is
+    canonical again.  Hypotheses: field widths (`TxRecB.WF`, hash / height / time widths), `tr` is the model's reading of the
+    byte-level record (`TxRecB.Abs`), `P : PendEnv` ties mass-core's deserializer and the keystore to the model's, and the
+    block record's 4-byte counter does not wrap (`BlockRoom`: fewer than 2^32 - 1 relevant transactions in the block) -/
+theorem ledger_on_bytes {E : MW.LedBytes.Env} (p : Params) {own : Own} (P : PendEnv E own) {sb : SB} (hC : CanonS E sb.1)
+    {trB : TxRecB} {blk : Model.TxmgrCodec.BlockMetaB} (hw : trB.WF E) (hbh : blk.hash.length = 32)
+    (hbt : blk.height < 256 ^ 8) {time : Nat} (htime : time < 256 ^ 8) {tr : TxRec} (ha : trB.Abs E tr)
+    (hroom : BlockRoom (absStore E sb.1) blk.height) :
+    (addRelevantMinedB p (removeDoubleSpendsB P trB.ins) trB blk time sb).map (absSB E)
+      = addRelevantMined p own (absStore E sb.1) (absBals E.N sb.2) tr (nmBlk E.N blk) ∧
+    ∀ sb', addRelevantMinedB p (removeDoubleSpendsB P trB.ins) trB blk time sb = .ok sb' → CanonS E sb'.1 :=
+  addRelevantMined_full_on_bytes p P hC hw hbh hbt htime ha hroom
+
+/-- (Round 6) removeDoubleSpends alone (also what filterBlock runs on the irrelevant transactions of a block) -/
+theorem remove_double_spends_on_bytes {E : MW.LedBytes.Env} {own : Own} (P : PendEnv E own) {bs : BStore} (hC : CanonS E bs)
+    {ins : List Model.TxmgrCodec.OutPointB} (hw : ∀ o ∈ ins, o.WF = true) (tr : TxRec)
+    (hti : tr.tx.ins.map (fun i => (i.tx, i.idx)) = ins.map (nmOP E.N)) :
+    absStore E (removeDoubleSpendsB P ins bs) = removeDoubleSpends own (absStore E bs) tr ∧
+    CanonS E (removeDoubleSpendsB P ins bs) := by
+  rw [removeDoubleSpends_ops, hti]; exact removeDoubleSpends_on_bytes P hC hw
+
+/-- (Round 6) `rollback_tx_on_bytes` — THE INNER LOOP OF Rollback ON BYTES (one transaction of one block record):
+    existsTxRecord / readTxRecordLoc / FetchTxByFileLoc / Delete; coinbase: per output existsCredit, Delete, the keystore
+    lookup, existsUnspent + deleteRawUnspent + Amount.Sub, the address-record repair (first-use height back to 0), the
+    deposit record; ordinary tx: valueUnmined + putRawUnmined, per input putRawUnminedInput, existsDebit + deleteRawDebit,
+    unspendRawCredit (121 → 45 bytes: `unspend_credit_value`), the keystore lookup by script hash,
+    fetchNsUnspentValueFromRawCredit + putRawUnspent, Amount.Add, unwithdrawGame; per output existsCredit, deleteRawCredit,
+    valueUnminedCreditFromMined + putRawUnminedCredit, …, putUnminedGameHistory.  `R : RbEnv` ties the node's block files and
+    the keystore at byte level to the model's `Ctx` -/
+theorem rollback_tx_on_bytes {E : MW.LedBytes.Env} {c : Ctx} (R : RbEnv E c) {sb : SB} (hC : CanonS E sb.1) {txh : Bytes}
+    {blk : Model.TxmgrCodec.BlockMetaB} (hs : StepWF txh blk) {time : Nat} (htime : time < 256 ^ 8) :
+    (rollbackTxB R txh blk time sb).map (absRb E)
+      = rollbackTx c (absStore E sb.1) (absBals E.N sb.2) (nmBlk E.N blk) (E.N.tx txh) ∧
+    ∀ x, rollbackTxB R txh blk time sb = .ok x → CanonS E x.1.1 :=
+  rollbackTx_on_bytes R hC hs htime
+
+/-- the statement of Round 5 WITHOUT width hypotheses.  It is too strong: it quantifies over every `tr` / `blk`, but a
+    byte bucket only ever decodes to tuples whose hashes name 32-byte strings, so e.g. with `asciiNames` a record whose
+    `tx.id` is not 32 characters long has no byte-level counterpart (`ledger_on_bytes_full_false`).  The provable statement
+    is `ledger_on_bytes` above (hypotheses `TxRecB.WF`, `TxRecB.Abs`, `PendEnv`, `BlockRoom`) -/
 def ledger_on_bytes_full : Prop :=
   ∀ (E : MW.LedBytes.Env) (p : Params) (own : Own),
     ∃ (stepB : SB → TxRec → Model.TxmgrCodec.BlockMetaB → M SB), ∀ (sb : SB) (tr : TxRec) (blk : Model.TxmgrCodec.BlockMetaB),
@@ -578,6 +649,25 @@ theorem inv_bytes {E : MW.LedBytes.Env} {c : Ctx} {bs : BStore} {chain : List Bl
         hash.length = 32 ∧ E.N.blk hash = b.id) ∧
     syncedToOf bs.sync + 1 = chain.length :=
   ⟨fun _ hw hr => (invB_balance h hw hr).1, fun _ _ hh hne hb => invB_sync h hh hne hb, invB_syncedTo h⟩
+
+/-- (Round 6) histories on the byte store: for ANY byte-level processConnectedBlock `pbB` that simulates
+    `Model.Ledger.processBlock` (`PbSim`), the run on bytes abstracts to the run of the ledger model event by event -/
+theorem run_on_bytes {E : MW.LedBytes.Env} {e : Lemmas.Ledger.Env} {pbB : PbB} (hs : PbSim E e pbB) (evs : List Ev)
+    (w : WorldB) (hC : CanonS E w.bs) :
+    absW E (runWB pbB w evs) = runW e (absW E w) evs ∧ CanonS E (runWB pbB w evs).bs := runWB_abs hs evs w hC
+
+/-- (Round 6) `ledger_correct` ON THE BYTE STORE: after ANY finite history of node events (extend, reorganise to any
+    branch) interleaved in any order with handler steps running on the byte database, if no notification is pending the
+    bytes are canonical and DECODE TO exactly the books of the node's best chain (`InvB` = `CanonS` ∧ `Inv ∘ absStore`),
+    and the follower's tip is the node's tip.  Conditional on `PbSim` for the handler step (see `notes/C01.md` Round 6 for
+    what of `PbSim` is proved: AddRelevantTx, Rollback's inner loop, removeDoubleSpends, AddCredits, the sync bucket) -/
+theorem ledger_correct_on_bytes {E : MW.LedBytes.Env} (e : Lemmas.Ledger.Env) (G : Block) {pbB : PbB} (hs : PbSim E e pbB)
+    (w0 : WorldB) (evs : List Ev) (H : RunHyp e G (absW E w0) evs)
+    (h0 : InvB E (e.ctx w0.chain) w0.bs w0.chain) (hv0 : w0.v.best = tipMeta w0.chain) (hq0 : w0.queue = []) :
+    (runWB pbB w0 evs).queue = [] →
+      InvB E (e.ctx (runWB pbB w0 evs).chain) (runWB pbB w0 evs).bs (runWB pbB w0 evs).chain ∧
+        (runWB pbB w0 evs).v.best = tipMeta (runWB pbB w0 evs).chain :=
+  MW.LedBytes.ledger_correct_on_bytes e G hs w0 evs H h0 hv0 hq0
 
 -- the hypotheses are satisfiable: an injective naming, the empty (canonical) database abstracting to the empty ledger
 -- store, a well-formed step and relevant output, a well-formed spent credit
